@@ -12,7 +12,8 @@
 (*    spills today" test. MC_Hints proves the contract for the transcription over bounded         *)
 (*    parameters x every day of a window; Trace_Hints compares the transcription with the hint    *)
 (*    the real code returned (hook verif_next_change_hint) and checks the contract on the days    *)
-(*    the real code evaluated. Date-range selectors are covered by the contract only.             *)
+(*    the real code evaluated. Date ranges: all three branches (both bounds fixed with a year on the start; a single day that   *)
+(*    does not exist every year; the generic pairing of projected bounds) are transcribed as well.   *)
 (*                                                                                                *)
 (* A hint is a day number; NONE (Rust: None) sorts below every day, as Option does.               *)
 EXTENDS DayEval
@@ -50,6 +51,67 @@ MonthHint(r, n) ==
           IN IF end - 1 < n THEN DateEnd                              \* next_change_from_intervals on [start, end - 1]
              ELSE IF start <= n THEN end ELSE start
 
+(* date ranges (MonthdayRange::Date), the three branches of the code                                 *)
+ValidDay(Y, m, d) == ValidYMD(Y, m, d)
+\* ensure_increasing_iter: keep a value only if it is greater than the last kept one
+RECURSIVE EnsureInc(_, _)
+EnsureInc(q, last) == IF q = <<>> THEN <<>>
+                      ELSE IF q[1] <= last THEN EnsureInc(Tail(q), last)
+                      ELSE <<q[1]>> \o EnsureInc(Tail(q), q[1])
+RECURSIVE DropBefore(_, _)
+DropBefore(q, x) == IF q # <<>> /\ q[1] < x THEN DropBefore(Tail(q), x) ELSE q
+\* intervals_from_bounds: an end closes the first start it follows and is only consumed when both coincide
+RECURSIVE FromBounds(_, _)
+FromBounds(ss, es) ==
+  IF ss = <<>> THEN <<>>
+  ELSE LET es1 == DropBefore(es, ss[1]) IN
+       IF es1 = <<>> THEN <<[s |-> ss[1], e |-> DateEnd]>> \o FromBounds(Tail(ss), es1)
+       ELSE <<[s |-> ss[1], e |-> es1[1]]>> \o FromBounds(Tail(ss), IF ss[1] = es1[1] THEN Tail(es1) ELSE es1)
+\* next_change_from_intervals
+NextFromIntervals(n, ivs) ==
+  LET later == SelectSeq(ivs, LAMBDA iv : iv.e >= n) IN
+  IF later = <<>> THEN DateEnd
+  ELSE IF later[1].s <= n THEN later[1].e + 1 ELSE later[1].s
+NoLast == -200000000
+NextFromBounds(n, ss, es) == NextFromIntervals(n, FromBounds(EnsureInc(ss, NoLast), EnsureInc(es, NoLast)))
+
+\* an ordered sequence of the elements of a finite set of integers
+RECURSIVE SortedSeq(_)
+SortedSeq(S) == IF S = {} THEN <<>> ELSE LET m == CHOOSE x \in S : \A z \in S : x <= z IN <<m>> \o SortedSeq(S \ {m})
+\* the bounds of a date range projected on a list of years (date_on_year + offset), in the order of the years
+ProjAll(b, years, after) ==
+  LET all == [i \in DOMAIN years |-> BoundAt(b, years[i], after)]
+  IN SelectSeq(all, LAMBDA x : x # NoDate)
+
+DateHint(r, n) ==
+  LET y  == YearOf(n)
+      sd == r.s.date
+      ed == r.e.date
+  IN
+  IF sd.t = "fixed" /\ HasYear(sd) /\ ed.t = "fixed" THEN
+       \* both bounds computed directly; an end before the start is taken one year later
+       IF ~ValidDay(sd.year, sd.month, sd.day) THEN NONE
+       ELSE LET ey == IF HasYear(ed) THEN ed.year ELSE sd.year IN
+            IF ~ValidDay(ey, ed.month, ed.day) THEN NONE
+            ELSE LET start == Shift(r.s, DaysFromCivil(sd.year, sd.month, sd.day))
+                     cand  == Shift(r.e, DaysFromCivil(ey, ed.month, ed.day))
+                     cc    == CivilFromDays(cand)
+                 IN IF start <= cand THEN NextFromBounds(n, <<start>>, <<cand>>)
+                    ELSE IF ~ValidDay(cc[1] + 1, cc[2], cc[3]) THEN NONE
+                    ELSE NextFromBounds(n, <<start>>, <<DaysFromCivil(cc[1] + 1, cc[2], cc[3])>>)
+  ELSE IF sd.t = "fixed" /\ sd = ed /\ sd.day > 28 THEN
+       \* a single day that does not exist every year: its occurrences in the years around (eight years between two Feb 29)
+       LET years == IF HasYear(sd) THEN <<sd.year>> ELSE [i \in 1..10 |-> y - 2 + i]
+           valid == SelectSeq(years, LAMBDA Y : ValidDay(Y, sd.month, sd.day))
+       IN NextFromIntervals(n, [i \in DOMAIN valid |-> [s |-> Shift(r.s, DaysFromCivil(valid[i], sd.month, sd.day)),
+                                                        e |-> Shift(r.e, DaysFromCivil(valid[i], sd.month, sd.day))]])
+  ELSE \* generic: the dates of the eleven years around, and of the years the bounds are attached to (R21)
+       LET years == SortedSeq(((y - 1)..(y + 10))
+                              \cup (IF HasYear(sd) THEN {sd.year, sd.year + 1} ELSE {})
+                              \cup (IF HasYear(ed) THEN {ed.year} ELSE {}))
+       IN NextFromBounds(n, ProjAll(r.s, years, TRUE), ProjAll(r.e, years, FALSE))
+MonthdayHint(r, n) == IF r.t = "month" THEN MonthHint(r, n) ELSE DateHint(r, n)
+
 (* week range a-b/step; Monday of ISO week w of ISO year Y, none if that year has no such week       *)
 WeeksIn(Y) == IsoWeek(DaysFromCivil(Y, 12, 28))[2]
 IsoMonday(Y, w) == IF w < 1 \/ w > WeeksIn(Y) THEN NONE
@@ -80,12 +142,12 @@ WeekdayHint(r, n, ctx) ==
 
 -----------------------------------------------------------------------------
 (* combination: a list of ranges (any of them may match), the four dimensions of a rule, the rules  *)
-Transcribed(rule) == \A i \in DOMAIN rule.monthday : rule.monthday[i].t = "month"
+Transcribed(rule) == TRUE
 ListHint(q, H(_)) == IF q = <<>> THEN DateEnd ELSE MinOfSeq([i \in DOMAIN q |-> H(q[i])])
 DaySelHint(rule, n, ctx) ==
   IF DayEmpty(rule) THEN DateEnd
   ELSE MinOfSeq(<<ListHint(rule.year, LAMBDA r : YearHint(r, n)),
-                  ListHint(rule.monthday, LAMBDA r : MonthHint(r, n)),
+                  ListHint(rule.monthday, LAMBDA r : MonthdayHint(r, n)),
                   ListHint(rule.week, LAMBDA r : WeekHint(r, n)),
                   ListHint(rule.weekday, LAMBDA r : WeekdayHint(r, n, ctx))>>)
 
